@@ -147,6 +147,20 @@ def run_config(ctx, cfg):
             d1 = deep.apply(S, X)
             x.val, y.val = vc.fresh_real("x4"), vc.fresh_real("y4")
             vc.check("history/a nested composite evaluated again follows its leaves", deep.apply(S, X) == (x.val + y.val) - (2 * x.val + 1))
+            # history: an observable that is already part of other expressions keeps its own value (building a composite
+            # never changes its operands; a shared sub-expression may appear several times in one tree)
+            a, b, c3, w = (Leaf(vc.fresh_real(nm_), nm_) for nm_ in ("a", "b", "c3", "w"))
+            H = a + b
+            H2 = H + c3
+            H3 = H - w
+            H4 = 2 * H - (H + c3)
+            vc.check("history/an operand is unchanged by the composites built from it: H = a + b still evaluates to a + b", H.apply(S, X) == a.val + b.val)
+            vc.check("history/H + c", H2.apply(S, X) == a.val + b.val + c3.val)
+            vc.check("history/H - w", H3.apply(S, X) == a.val + b.val - w.val)
+            vc.check("history/2*H - (H + c) with H shared", H4.apply(S, X) == 2 * (a.val + b.val) - (a.val + b.val + c3.val))
+            P1 = H * 3
+            P2 = -H
+            vc.check("history/H after H * 3 and -H", H.apply(S, X) == a.val + b.val and P1.apply(S, X) == 3 * (a.val + b.val) and P2.apply(S, X) == -(a.val + b.val))
             for tag, c in scalars():
                 x, y = Leaf(vc.fresh_real("x"), "x"), Leaf(vc.fresh_real("y"), "y")
                 vc.check("Sum(num,obs).apply == num + obs [%s]" % tag, SBSum(c, x).apply(S, X) == c + x.val)
